@@ -151,7 +151,11 @@ func (x *Exec) callFunc(callee *types.Func, recvExpr ast.Expr, e *ast.CallExpr, 
 		if i < sig.Params().Len() {
 			pty := x.w.goTy(sig.Params().At(i).Type(), x.model.BV)
 			if pty.K == TOpaque && v.Ty.K != TOpaque {
+				cv := v
 				v = x.toInterface(v, pty, a)
+				if tv, ok := x.info().Types[a]; ok && tv.Type != nil {
+					x.dispatchLink(st, v, cv, tv.Type, sig.Params().At(i).Type())
+				}
 			}
 		}
 		args = append(args, v)
@@ -306,6 +310,96 @@ func (x *Exec) pureMethodCall(c *CEnv, e *CExpr, recv Val, method string, args [
 		c.errf(e, "method %s is not declared 'assume pure'", key)
 	}
 	return x.pureCall(key, fn.Type().(*types.Signature), &recv, args)
+}
+
+// dispatchLink: a value cv of concrete type ct has just been boxed into the
+// interface type it (handle boxed). For every method of the interface that is
+// declared 'assume pure' and whose implementation on ct has a verified
+// contract marked 'dispatch', the pure interface function applied to the
+// handle is tied to that contract: for all arguments, requires ==> ensures
+// with result := I.M(handle, args), evaluated on the storage as it is now.
+// (The purity declaration already says the result does not depend on the
+// state; the link says which function it is. Listed as an assumption.)
+func (x *Exec) dispatchLink(st *State, boxed Val, cv Val, ct, it types.Type) {
+	iface, ok := it.Underlying().(*types.Interface)
+	if !ok {
+		return
+	}
+	for i := 0; i < iface.NumMethods(); i++ {
+		im := iface.Method(i)
+		ikey := funcKey(im)
+		if !x.eng.pures[ikey] {
+			continue
+		}
+		obj, _, indirect := types.LookupFieldOrMethod(ct, false, im.Pkg(), im.Name())
+		cm, ok := obj.(*types.Func)
+		if !ok || indirect {
+			continue
+		}
+		ckey := funcKey(cm)
+		fc := x.eng.contracts[ckey]
+		if fc == nil || !fc.Dispatch || fc.Assume || fc.Inline {
+			continue
+		}
+		sig := cm.Type().(*types.Signature)
+		if _, ptrRecv := sig.Recv().Type().(*types.Pointer); ptrRecv != (cv.Ty.K == TPtr) {
+			continue
+		}
+		if fc.Model != "" && modelByName(fc.Model).Float != x.model.Float && x.usesFloat(sig) {
+			continue
+		}
+		names := map[string]Val{}
+		rn := sig.Recv().Name()
+		if rn == "" || rn == "_" {
+			rn = "self"
+		}
+		names[rn] = cv
+		var bvs []BoundVar
+		var avs []Val
+		okSorts := true
+		for j := 0; j < sig.Params().Len(); j++ {
+			p := sig.Params().At(j)
+			pty := x.w.goTy(p.Type(), x.model.BV)
+			if pty.K != TInt || pty.Unsigned {
+				okSorts = false
+				break
+			}
+			b := BoundVar{Name: x.freshBound("d_" + p.Name()), Sort: SInt}
+			bvs = append(bvs, b)
+			v := Val{T: mk(b.Name, SInt), Ty: pty}
+			avs = append(avs, v)
+			names[p.Name()] = v
+		}
+		if !okSorts || sig.Results().Len() != 1 {
+			continue
+		}
+		r := x.pureCall(ikey, im.Type().(*types.Signature), &boxed, avs)
+		names["result"] = r
+		if rv := sig.Results().At(0); rv.Name() != "" && rv.Name() != "_" {
+			names[rv.Name()] = r
+		}
+		if len(fc.Results) == 1 {
+			names[fc.Results[0]] = r
+		}
+		look := func(n string) (Val, bool) { v, ok := names[n]; return v, ok }
+		env := &CEnv{x: x, st: st, old: st, lookup: look, oldLook: look, pkg: x.eng.pkgTypes[fc.Pkg], oldAlloc: st.alloc}
+		for _, ld := range fc.Lets {
+			names[ld.Name] = env.eval(ld.E)
+		}
+		var pre, post []*Term
+		for _, c := range fc.Requires {
+			pre = append(pre, env.evalBool(c.E))
+		}
+		for _, c := range fc.Ensures {
+			post = append(post, env.evalBool(c.E))
+		}
+		body := Implies(And(pre...), And(post...))
+		if len(bvs) > 0 {
+			body = Forall(bvs, body, r.T)
+		}
+		st.assume(body)
+		x.noteTrusted("dispatch: " + ikey + " on a boxed " + types.TypeString(ct, func(p *types.Package) string { return p.Name() }) + " is " + ckey + " (verified contract), evaluated on the storage as it is when the value is boxed")
+	}
 }
 
 // applyContract: assert requires, havoc assigns, assume ensures.
@@ -855,9 +949,29 @@ func (x *Exec) methodValue(e *ast.SelectorExpr, sel *types.Selection, st *State)
 	panic("unreachable")
 }
 
+// typeAssert: x.(T) for a concrete type T with a boxKey. The dynamic type
+// having T's tag is a safety obligation (the Go expression panics otherwise);
+// the value is the unboxed handle, which satisfies T's type invariant because
+// only well-formed values are ever boxed.
 func (x *Exec) typeAssert(e *ast.TypeAssertExpr, st *State) Val {
-	x.unsupported(e, "type assertions are not supported")
-	panic("unreachable")
+	if e.Type == nil {
+		x.unsupported(e, "type switches are not supported")
+	}
+	tt := x.info().Types[e.Type].Type
+	ty := x.w.goTy(tt, x.model.BV)
+	key := boxKey(ty)
+	if key == "" {
+		x.unsupported(e, "type assertions to this type are not supported")
+	}
+	v := x.expr(e.X, st)
+	if v.Ty.K != TOpaque {
+		x.unsupported(e, "type assertion on a non-interface value")
+	}
+	sort := x.w.sortOf(ty, x.model)
+	x.safe(st, "typeassert", x.dynTypeIs(v.T, key, sort), e)
+	u := x.unboxed(v.T, key, sort)
+	st.assume(x.typeInv(u, ty, st.alloc))
+	return Val{T: u, Ty: ty}
 }
 
 // typeAssert2: v, ok := x.(I) for an interface type I. The dynamic type of x
@@ -867,8 +981,25 @@ func (x *Exec) typeAssert(e *ast.TypeAssertExpr, st *State) Val {
 // nil interface. Assertions to concrete types stay outside the subset.
 func (x *Exec) typeAssert2(e *ast.TypeAssertExpr, st *State) []Val {
 	tt := x.info().Types[e.Type].Type
-	if _, isIface := tt.Underlying().(*types.Interface); !isIface || e.Type == nil {
-		x.unsupported(e, "type assertions to concrete types are not supported")
+	if e.Type == nil {
+		x.unsupported(e, "type switches are not supported")
+	}
+	if _, isIface := tt.Underlying().(*types.Interface); !isIface {
+		// concrete T with a boxKey: ok is exactly "the dynamic-type tag is T's"
+		ty := x.w.goTy(tt, x.model.BV)
+		key := boxKey(ty)
+		if key == "" || ty.K != TSlice {
+			x.unsupported(e, "comma-ok type assertions to this type are not supported")
+		}
+		v := x.expr(e.X, st)
+		if v.Ty.K != TOpaque {
+			x.unsupported(e, "type assertion on a non-interface value")
+		}
+		sort := x.w.sortOf(ty, x.model)
+		ok := x.dynTypeIs(v.T, key, sort)
+		u := x.unboxed(v.T, key, sort)
+		st.assume(Implies(ok, x.typeInv(u, ty, st.alloc)))
+		return []Val{{T: Ite(ok, u, nilSlice), Ty: ty}, {T: ok, Ty: tyBool}}
 	}
 	v := x.expr(e.X, st)
 	ty := x.w.goTy(tt, x.model.BV)
